@@ -289,3 +289,117 @@ func VerifKernelDeref(variant int, seg1 string, hasSeg2 bool, seg2 string) bool 
 	}
 	return err == nil && got != nil && got.Title == want
 }
+
+// ---- C02b: the $schema switch, through the real Resolve and Validate
+
+func VerifKernelSchemaVersion(v string) bool {
+	s := &Schema{Schema: v}
+	rs, err := s.Resolve(nil)
+	if err != nil {
+		return false
+	}
+	verr := rs.Validate(1.0)
+	supported := v == "" || v == "http://json-schema.org/draft-07/schema#" || v == "https://json-schema.org/draft-07/schema#" || v == "https://json-schema.org/draft/2020-12/schema"
+	if supported != (verr == nil) {
+		return false
+	}
+	isD7 := v == "http://json-schema.org/draft-07/schema#" || v == "https://json-schema.org/draft-07/schema#"
+	return (rs.draft == draft7) == isD7
+}
+
+// ---- C19: Marshal order of "properties"
+
+// VerifKernelPropertyOrder: props = subset of {a,b,c,d}; order = sequence over {a,b,c,d,z}
+// (z names no property; duplicates allowed). Duplicates are rejected by basicChecks;
+// otherwise the emitted key sequence is: listed-and-present names in list order, then
+// the remaining names ascending.
+func VerifKernelPropertyOrder(pa, pb, pc, pd bool, order string) bool {
+	props := map[string]*Schema{}
+	if pa {
+		props["a"] = &Schema{}
+	}
+	if pb {
+		props["b"] = &Schema{}
+	}
+	if pc {
+		props["c"] = &Schema{}
+	}
+	if pd {
+		props["d"] = &Schema{}
+	}
+	var ord []string
+	for i := 0; i < len(order); i++ {
+		ord = append(ord, string(order[i]))
+	}
+	s := &Schema{Properties: props, PropertyOrder: ord}
+	dup := false
+	for i := 0; i < len(order); i++ {
+		for j := i + 1; j < len(order); j++ {
+			if order[i] == order[j] {
+				dup = true
+			}
+		}
+	}
+	err := s.basicChecks()
+	if dup {
+		return err != nil
+	}
+	if err != nil {
+		return false
+	}
+	bs, err := orderedProperties{props: props, order: ord}.MarshalJSON()
+	if err != nil {
+		return false
+	}
+	// expected key sequence
+	present := func(c byte) bool {
+		switch c {
+		case 'a':
+			return pa
+		case 'b':
+			return pb
+		case 'c':
+			return pc
+		case 'd':
+			return pd
+		}
+		return false
+	}
+	want := ""
+	for i := 0; i < len(order); i++ {
+		if present(order[i]) {
+			want += string(order[i])
+		}
+	}
+	for _, c := range []byte("abcd") {
+		if !present(c) {
+			continue
+		}
+		listed := false
+		for i := 0; i < len(order); i++ {
+			if order[i] == c {
+				listed = true
+			}
+		}
+		if !listed {
+			want += string(c)
+		}
+	}
+	// keys of the emitted object: every value is the literal true
+	got := ""
+	for i := 0; i < len(bs); i++ {
+		if bs[i] == '"' && i+2 < len(bs) && bs[i+2] == '"' {
+			got += string(bs[i+1])
+			i += 2
+		}
+	}
+	exp := "{"
+	for i := 0; i < len(want); i++ {
+		if i > 0 {
+			exp += ","
+		}
+		exp += "\"" + string(want[i]) + "\":true"
+	}
+	exp += "}"
+	return got == want && string(bs) == exp
+}
